@@ -705,6 +705,10 @@ func (r *Raft) RemoveServer(id string, timeout time.Duration) Future[Configurati
 	r.configurationResponseCh = configurationFuture.responseCh
 	r.configurationResponseIndex = configuration.Index
 
+	// The configuration takes effect as soon as it is in the log. If this node is the one
+	// being removed, it keeps leading until the configuration is committed.
+	r.configuration = &configuration
+
 	r.sendAppendEntriesToPeers()
 
 	r.logger.Debugf(
@@ -984,11 +988,11 @@ func (r *Raft) AppendEntries(request *AppendEntriesRequest, response *AppendEntr
 			r.logger.Fatalf("failed to truncate log: %v", err)
 		}
 
-		// Fall back to the committed configuration if the current one is
-		// truncated. This is necessary since a partitioned leader may have
-		// received a membership change request.
+		// Fall back to the latest configuration that is left in the log (or the
+		// committed configuration) if the current one is truncated. This is necessary
+		// since a partitioned leader may have received a membership change request.
 		if entry.Index <= r.configuration.Index {
-			r.nextConfiguration(r.committedConfiguration)
+			r.nextConfiguration(r.latestConfiguration())
 		}
 
 		toAppend = request.Entries[i:]
@@ -997,6 +1001,24 @@ func (r *Raft) AppendEntries(request *AppendEntriesRequest, response *AppendEntr
 
 	if err := r.log.AppendEntries(toAppend); err != nil {
 		r.logger.Fatalf("failed to append entries to log: %v", err)
+	}
+
+	// A node always uses the latest configuration in its log, whether or not it is committed.
+	// If the followers waited until a configuration is applied, a majority of an outdated
+	// configuration could elect a leader and commit entries independently of the nodes
+	// that already use a later configuration.
+	for _, entry := range toAppend {
+		if entry.EntryType != ConfigurationEntry {
+			continue
+		}
+		configuration, err := r.transport.DecodeConfiguration(entry.Data)
+		if err != nil {
+			r.logger.Warnf("could not decode configuration entry: logIndex = %d, error = %v", entry.Index, err)
+			continue
+		}
+		if configuration.Index > r.configuration.Index {
+			r.nextConfiguration(&configuration)
+		}
 	}
 
 	// Only the entries up to the last entry covered by this request are known to match the
@@ -1834,7 +1856,12 @@ func (r *Raft) commitLoop() {
 
 			// Check whether the majority of nodes in the cluster agree on the entry.
 			// If they do, it is safe to commit.
-			matches := 1
+			// This node only counts if it is a voting member of the configuration in use
+			// (a leader that is removing itself is not).
+			matches := 0
+			if r.isVoter(r.id) {
+				matches = 1
+			}
 			for id, follower := range r.followers {
 				// Ignore this node and any nodes which are not voting members.
 				if id == r.id || !r.configuration.IsVoter[id] {
@@ -1957,8 +1984,37 @@ func (r *Raft) applyConfiguration(configurationData []byte) {
 	if r.committedConfiguration != nil && configuration.Index <= r.committedConfiguration.Index {
 		return
 	}
-	r.nextConfiguration(&configuration)
+	// The log may already contain a later configuration which is the one in use.
+	if r.configuration == nil || configuration.Index >= r.configuration.Index {
+		r.nextConfiguration(&configuration)
+	}
 	r.committedConfiguration = &configuration
+}
+
+// latestConfiguration returns the latest configuration in the log or the committed
+// configuration if the log does not contain one.
+func (r *Raft) latestConfiguration() *Configuration {
+	// Only the entries that follow the committed configuration need to be searched.
+	first := r.lastIncludedIndex
+	if r.committedConfiguration != nil && r.committedConfiguration.Index > first {
+		first = r.committedConfiguration.Index
+	}
+	for index := r.log.LastIndex(); index > first; index-- {
+		entry, err := r.log.GetEntry(index)
+		if err != nil {
+			r.logger.Fatalf("failed to get entry from log: error = %v", err)
+		}
+		if entry.EntryType != ConfigurationEntry {
+			continue
+		}
+		configuration, err := r.transport.DecodeConfiguration(entry.Data)
+		if err != nil {
+			r.logger.Warnf("could not decode configuration entry: logIndex = %d, error = %v", entry.Index, err)
+			continue
+		}
+		return &configuration
+	}
+	return r.committedConfiguration
 }
 
 // readOnlyLoop is a long running loop that applies read-only operations to the state machine.
